@@ -1,5 +1,5 @@
 From Coq Require Import NArith List Bool Arith.
-From PS Require Import Base.Chars Model.Backend Spec.Target Spec.Lex Proofs.BackendDomP Run.Bits.
+From PS Require Import Base.Chars Model.Backend Spec.Target Spec.Lex Spec.Atom Spec.Query Proofs.BackendDomP Run.Bits.
 Import ListNotations.
 Open Scope nat_scope.
 
@@ -21,24 +21,16 @@ Record scase := {
   sc_ftexts : list (nat * str);             (* field -> escape_and_quote_field text *)
   sc_vtexts : list (nat * str);             (* atom -> value text inside an in-list *)
   sc_query : str;                           (* implementation's query *)
-  sc_toks : option (list tok);              (* implementation's query lexed, atoms decoded *)
+  sc_keys : list akey;                      (* reference predicates, numbered by position: the atoms of sc_ref *)
   sc_ref : cond;                            (* reference meaning of the source rule *)
   sc_natoms : nat;
-  sc_pylex : option (list ltok)             (* the harness's splitting of the query into tokens and atom texts *)
+  sc_pylex : option (list ltok)             (* unused (kept for replay files of earlier runs) *)
 }.
 
-(* the harness's lexer must agree with the target language's lexer Spec/Lex.v (theorem C01_lex_show:
-   lexing a rendered token sequence gives the token sequence back) *)
-Definition ltok_eqb (a b : ltok) : bool :=
-  match a, b with
-  | XOp x, XOp y => op_eqb x y
-  | XL, XL | XR, XR => true
-  | XAtom x, XAtom y => str_eqb x y
-  | _, _ => false
-  end.
-Definition lex_agrees (c : scase) : bool :=
-  negb (str_eqb (s_sep (sc_S c)) [32%N]) ||
-  option_eqb (list_eqb ltok_eqb) (lex (sc_query c)) (sc_pylex c).
+(* the implementation's query is read inside Coq: Spec/Lex.v splits it (theorem C01_lex_show), Spec/Atom.v
+   reads every atom (theorem C01_leaf_faithful), Spec/Query.v identifies each atom with a reference
+   predicate by its key; field names of this suite are plain ASCII words *)
+Definition query_toks (c : scase) : option (list tok) := read_query (W_of []) (sc_keys c) (sc_query c).
 
 Definition judge_struct (c : scase) : N :=
   let K := sc_K c in
@@ -46,7 +38,7 @@ Definition judge_struct (c : scase) : N :=
   let model := show (sc_S c) at_text (lookup [] (sc_ftexts c)) (lookup [] (sc_vtexts c))
                     (conv K false (sc_tree c)) in
   let spec :=
-    match sc_toks c with
+    match query_toks c with
     | None => false
     | Some ts =>
       forallb (fun m => let asg := asg_of (N.of_nat m) in
@@ -55,7 +47,7 @@ Definition judge_struct (c : scase) : N :=
                         | None => false end)
               (seq 0 (Nat.pow 2 (sc_natoms c)))
     end in
-  bits (str_eqb model (sc_query c)) (spec && lex_agrees c) (cfg_ok K && wfb K (sc_tree c)) (2 <=? depth (sc_tree c)).
+  bits (str_eqb model (sc_query c)) spec (cfg_ok K && wfb K (sc_tree c)) (2 <=? depth (sc_tree c)).
 
 (* used by --replay to print the model's rendering *)
 Definition model_struct (c : scase) : str :=
